@@ -178,6 +178,7 @@ func runSCIONServer(ctx context.Context, log *slog.Logger, mtrcs *scionServerMet
 			if err != nil {
 				panic(err)
 			}
+			scionLayer.PathType = scionLayer.Path.Type()
 			scionLayer.NextHdr = slayers.L4SCMP
 
 			err = buffer.Clear()
@@ -457,6 +458,7 @@ func runSCIONServer(ctx context.Context, log *slog.Logger, mtrcs *scionServerMet
 			if err != nil {
 				panic(err)
 			}
+			scionLayer.PathType = scionLayer.Path.Type()
 			scionLayer.NextHdr = slayers.L4UDP
 
 			udpLayer.DstPort, udpLayer.SrcPort = udpLayer.SrcPort, udpLayer.DstPort
